@@ -53,14 +53,25 @@ func natList(xs []int) string {
 	return strings.Join(s, ",")
 }
 
-func (x *ids) blockArgs(u *universe, b *lib.Bundle) string {
+// parentRoot: the model's "old root" of a block is the state root of the block it builds on (the
+// state update's OldRoot can differ textually from it across a protocol-version change, because
+// the commitment formula depends on the version; juno recomputes it with the new block's version).
+func parentRoot(chain []*lib.Bundle, b *lib.Bundle) *felt.Felt {
+	n := b.Block.Number
+	if n == 0 || int(n) > len(chain) {
+		return nil
+	}
+	return chain[n-1].Block.GlobalStateRoot
+}
+
+func (x *ids) blockArgs(u *universe, b *lib.Bundle, oldRoot *felt.Felt) string {
 	bi := u.blockKeys(b)
 	txs := make([]int, len(b.Block.Transactions))
 	for i, tx := range b.Block.Transactions {
 		txs[i] = x.of(tx.Hash())
 	}
 	return fmt.Sprintf("%d %d %d %d %d %s %s", b.Block.Number, x.of(b.Block.Hash), x.of(b.Block.ParentHash),
-		x.of(b.Block.GlobalStateRoot), x.of(b.SU.OldRoot), natList(bi), natList(txs))
+		x.of(b.Block.GlobalStateRoot), x.of(oldRoot), natList(bi), natList(txs))
 }
 
 // errClass maps an error of the real code to the model's error classes.
@@ -235,7 +246,7 @@ func newTrace(sc *Scenario, r *runner) *trace {
 func (t *trace) opLine(s *Step) string {
 	switch s.Op {
 	case "store", "rejected":
-		return "store " + t.ids.blockArgs(t.sc.U, s.B)
+		return "store " + t.ids.blockArgs(t.sc.U, s.B, parentRoot(s.After.Chain, s.B))
 	case "l1head":
 		return fmt.Sprintf("l1head %d", s.L1.BlockNumber)
 	case "prune":
@@ -299,7 +310,7 @@ func (t *trace) script() (lines, want []string) {
 	add(fmt.Sprintf("cfg %d %s", core.NumBlocksPerFilter, t.fixes), "ok")
 	if t.sc.Base != nil {
 		for _, b := range t.sc.BaseWorld.Chain {
-			add("blk "+t.ids.blockArgs(t.sc.U, b), "ok")
+			add("blk "+t.ids.blockArgs(t.sc.U, b, parentRoot(t.sc.BaseWorld.Chain, b)), "ok")
 		}
 		snap := "-"
 		if s, err := core.GetRunningEventFilter(t.sc.Base); err == nil {
